@@ -244,6 +244,15 @@ func drawPlan(rt *rapid.T) (p plan, nearConst bool) {
 	return p, nearConst
 }
 
+// hangBudget is the watchdog for one plan. It only exists to turn a genuine deadlock into a
+// shrinkable failure instead of a test-binary timeout; it scales with the amount of work so that
+// a long session on a loaded machine (or under the race detector) is never mistaken for a hang.
+func hangBudget(p plan) time.Duration {
+	writes := len(p.C2S) + len(p.S2C)
+	bytes := p.Payload + sum(p.C2S) + sum(p.S2C)
+	return 90*time.Second + time.Duration(writes)*20*time.Millisecond + time.Duration(bytes/1024)*10*time.Millisecond
+}
+
 func b2i(b bool) int {
 	if b {
 		return 1
@@ -745,8 +754,8 @@ func tunnelProp(rt *rapid.T) {
 		var r result
 		select {
 		case r = <-done:
-		case <-time.After(20 * time.Second):
-			r.o = fail("C01/hang", "plan did not complete within 20s")
+		case <-time.After(hangBudget(p)):
+			r.o = fail("C01/hang", "plan did not complete within %s", hangBudget(p))
 		}
 		if journal != "" {
 			os.Remove(journal)
